@@ -73,20 +73,31 @@ func TestBoundedC10(t *testing.T) {
 		pfx     uint8
 		binary  bool
 		class   string
+		keys    []string // own key universe (default: universe)
+		pfxs    []string // own prefixes (default: prefixes)
 	}
 	modes := []mode{
-		{"userdata, no session", "", db.DATATYPE_USERDATA, false, "unexpected"},
-		{"userdata, session s1", "s1", db.DATATYPE_USERDATA, false, "unexpected"},
-		{"template (never session-scoped), session s1 set", "s1", db.DATATYPE_TEMPLATE, false, "H35"},
+		{"userdata, no session", "", db.DATATYPE_USERDATA, false, "unexpected", nil, nil},
+		{"userdata, session s1", "s1", db.DATATYPE_USERDATA, false, "unexpected", nil, nil},
+		{"template (never session-scoped), session s1 set", "s1", db.DATATYPE_TEMPLATE, false, "H35", nil, nil},
+		// binary keys: record names are base64 text, which does not sort like the raw keys
+		// (names of keys with a common prefix are not contiguous in the directory listing)
+		{"userdata, no session, binary keys with non-contiguous names", "", db.DATATYPE_USERDATA, true, "unexpected",
+			[]string{"\x03\x40\x00", "\x00\x00\x00", "\x03\x00\x00", "\xfa\x01", "\x03\x3e"}, []string{"", "\x03", "\x00", "\xfa", "\x03\x40", "\x04"}},
 	}
 	if thorough {
-		modes = append(modes, mode{"userdata, session s1, binary keys", "s1", db.DATATYPE_USERDATA, true, "unexpected"})
+		modes = append(modes, mode{"userdata, session s1, binary keys", "s1", db.DATATYPE_USERDATA, true, "unexpected", nil, nil})
 	}
+	universe0, prefixes0 := universe, prefixes
 	classes := map[string]int{}
 	var examples []c10Failure
 	perClass := map[string]int{}
 	cases := 0
 	for _, m := range modes {
+		universe, prefixes := universe0, prefixes0
+		if m.keys != nil {
+			universe, prefixes = m.keys, m.pfxs
+		}
 		for mask := 0; mask < 1<<len(universe); mask++ {
 			d, err := os.MkdirTemp("", "vcgo-c10-")
 			if err != nil {
@@ -167,7 +178,7 @@ func TestBoundedC10(t *testing.T) {
 		}
 	}
 	out, _ := json.Marshal(map[string]interface{}{"cases": cases, "classes": classes, "examples": examples, "unexpected": unexpected,
-		"bound": fmt.Sprintf("filesystem backend, text keys%s: every subset of %d keys %v x %d prefixes %q, in %d modes (no session; session s1 with records of session s10 and of other data types alongside; a never-session-scoped type with a session set)",
-			map[bool]string{true: " and binary keys", false: ""}[thorough], len(universe), universe, len(prefixes), prefixes, len(modes))})
+		"bound": fmt.Sprintf("filesystem backend, text keys%s: every subset of %d keys %v x %d prefixes %q, in %d modes (no session; session s1 with records of session s10 and of other data types alongside; a never-session-scoped type with a session set; binary keys %x whose base64 names are not contiguous per prefix, every subset x prefixes %x)",
+			map[bool]string{true: " and binary keys", false: ""}[thorough], len(universe0), universe0, len(prefixes0), prefixes0, len(modes), modes[3].keys, modes[3].pfxs)})
 	fmt.Printf("BOUNDED-RESULT %s\n", strings.ReplaceAll(string(out), "\n", " "))
 }
